@@ -42,3 +42,7 @@ def replay(ctx, path):
     rej = [r for r in rej if r.reason in cm.C06_REASONS]
     log("replay: %s" % ("rejected: %s" % rej[0].reason if rej else "accepted"))
     return 1 if rej else 0
+
+
+def selftest(ctx):
+    return cm.selftest(ctx, "C06")
